@@ -48,3 +48,11 @@ PROPS["C07"] = {
     "assumptions": ["Display of Number is the decimal numeral (std fmt); display strings are ASCII so bytes are code points",
                     "the sequencing of read_bracket / read_atom over the token tries is a hand transcription (Model/Token.v) tied by the kind correspondence (verif_read_atom hook)"],
 }
+
+PROPS["C09"] = {
+    "deps": ["Proofs/C09_Final.vo"],
+    "props": "Props/C09.v",
+    "probes": [{"file": "Probes/Token.v", "filter": lambda name: name.startswith("C07.reads_") or name.startswith("C07.display_")}],
+    "suites": [("hist", 800, 20000), ("reader", 600, 12000)],
+    "assumptions": ["event values are in range (isotope/map below 1000, ring number below 100): guaranteed by the feature types' constructors (C18)"],
+}
